@@ -20,8 +20,8 @@ Clauses(r) ==
     <<"tag_is_source", \A k \in 1..Len(r.out) : r.out[k][1] = r.out[k][2]>>,
     <<"per_source_order", M(r.strategy)!PerSourceOrder(o, r.lens)>>,
     <<"exactly_once", r.ended => M(r.strategy)!ExactlyOnce(o, r.lens)>>,
-    <<"sequential_is_concatenation", r.strategy = "sequential" => M(r.strategy)!IsPrefixOf(o, M(r.strategy)!Concat(r.lens))>>,
-    <<"interleaved_is_round_robin", r.strategy = "interleaved" => M(r.strategy)!IsPrefixOf(o, M(r.strategy)!RoundRobin(r.lens))>>,
+    <<"sequential_is_concatenation", r.strategy = "sequential" => M(r.strategy)!IsPrefixOf(o, M(r.strategy)!ConcatC(r.lens))>>,
+    <<"interleaved_is_round_robin", r.strategy = "interleaved" => M(r.strategy)!IsPrefixOf(o, M(r.strategy)!RoundRobinC(r.lens))>>,
     <<"reproducible_from_seed", r.out = r.out2>>
     >>
 \* not part of the property (C07 does not speak about ExactSizeIterator::len): mechanism layer, DRIFT only
